@@ -329,6 +329,80 @@ func TestC17(t *testing.T) {
 		}
 	}
 
+	// ---- rpc.serverInfo reports the assigner's CURRENT method list (sorted), also after the set has
+	// changed and whatever a previous caller did with the slice it was given
+	{
+		mm := handler.Map{"Beta": handler.New(func(context.Context) (int, error) { return 1, nil })}
+		loc := server.NewLocal(mm, nil)
+		names := func() []string {
+			var out struct {
+				Methods []string `json:"methods"`
+			}
+			if err := loc.Client.CallResult(ctx, "rpc.serverInfo", nil, &out); err != nil {
+				res.Violatef("rpc.serverInfo failed", "mutable assigner", "%v", err)
+			}
+			return out.Methods
+		}
+		first := names()
+		si := loc.Server.ServerInfo()
+		if len(si.Methods) > 0 {
+			si.Methods[0] = "Zuul" // a caller may do what it likes with its copy
+		}
+		mm["Alpha"] = mm["Beta"]
+		mm["Gamma.Delta"] = mm["Beta"]
+		second := names()
+		res.Case("serverinfo-tracks-assigner", true, "Map grows after the first query")
+		if fmt.Sprint(first) != "[Beta]" || fmt.Sprint(second) != "[Alpha Beta Gamma.Delta]" {
+			res.Violatef("rpc.serverInfo method list wrong or unsorted", "the assigner's method set changed between two queries", "first %q, then %q (want [Beta], then [Alpha Beta Gamma.Delta])", first, second)
+		}
+		if _, err := loc.Client.Call(ctx, "Alpha", nil); err != nil {
+			res.Violatef("a method added to the assigner is not dispatched", "Alpha", "%v", err)
+		}
+		loc.Close()
+	}
+
+	// ---- method names as other encoders write them: JSON escapes that Go's own syntax does not have
+	// (\/ and surrogate pairs) and \u escapes of ordinary characters decode to the same name
+	{
+		var mu sync.Mutex
+		var seen []string
+		mm := handler.Map{}
+		for _, n := range []string{"a/b", "Svc/Do", "𝜋", "x.😀", "plain"} {
+			n := n
+			mm[n] = func(context.Context, *jrpc2.Request) (any, error) {
+				mu.Lock()
+				seen = append(seen, n)
+				mu.Unlock()
+				return n, nil
+			}
+		}
+		cli, sch := rawPair()
+		rs := jrpc2.NewServer(mm, nil).Start(sch)
+		for _, c := range []struct{ wire, want string }{
+			{`a\/b`, "a/b"}, {`Svc\/Do`, "Svc/Do"}, {`\ud835\udf0b`, "𝜋"}, {`x.\ud83d\ude00`, "x.😀"}, {`\u0070lain`, "plain"}, {`a/b`, "a/b"},
+			{`nope\/x`, ""}, {`rpc.\ud83d\ude00`, ""},
+		} {
+			cli.Send([]byte(`{"jsonrpc":"2.0","id":1,"method":"` + c.wire + `"}`))
+			reply, _ := cli.Recv()
+			var obj struct {
+				Result string `json:"result"`
+				Error  *struct {
+					Code int `json:"code"`
+				} `json:"error"`
+			}
+			json.Unmarshal(reply, &obj)
+			res.Case("wire-escaped-method/"+c.wire, true, c.wire)
+			switch {
+			case c.want != "" && (obj.Error != nil || obj.Result != c.want):
+				res.Violatef("dispatch differs from the documented rule: h expected, got "+map[bool]string{true: "error", false: "other handler"}[obj.Error != nil], c.wire, "method written %s on the wire names %q: reply %s", c.wire, c.want, reply)
+			case c.want == "" && (obj.Error == nil || obj.Error.Code != -32601):
+				res.Violatef("dispatch differs from the documented rule: notfound expected", c.wire, "reply %s", reply)
+			}
+		}
+		cli.Close()
+		rs.Wait()
+	}
+
 	// ---- Names: random topologies (service names that are prefixes of one another, names below '.')
 	alpha := []string{"a", "b", "-", " ", ".", "k", "v", "~", "é", "A", "0"}
 	word := func() string {
